@@ -538,8 +538,15 @@ def gAttrs (cont : Bool) (p : GProj) (c0 : Conn) : Attrs :=
                [("preComponent", .str c0.preComp), ("postComponent", .str c0.syn)]
   else projAttrs p.id "electricalProjection" p.pre p.post ++ [("synapse", .str c0.syn)]
 
+theorem uniformG_of (cont : Bool) (c0 : Conn) (l : List Conn)
+    (huni : ∀ c ∈ l, c.syn = c0.syn ∧ c.preComp = c0.preComp) : uniformG cont c0 l = true := by
+  unfold uniformG
+  rw [List.all_eq_true]
+  intro c hc
+  simp [(huni c hc).1, (huni c hc).2]
+
 theorem encodeGProj_eq (cfg : Cfg) (cont : Bool) (p : GProj) (c0 : Conn) (hf : firstConn p = .ok c0)
-    (hok : GOK cfg cont p) :
+    (hok : GOK cfg cont p) (huni : ∀ c ∈ p.plain ++ p.insts ++ p.instWs, c.syn = c0.syn ∧ c.preComp = c0.preComp) :
     encodeGProj cfg cont p = .ok ⟨projLeafName p.id, gAttrs cont p c0, [⟨p.id, gCols (wFlag p), encRowsG cfg p⟩]⟩ := by
   have hw : mapE (if cont then cRowW cfg else eRowW cfg) p.instWs = .ok (p.instWs.map (gRowW cfg)) := by
     apply mapE_ok
@@ -549,7 +556,8 @@ theorem encodeGProj_eq (cfg : Cfg) (cont : Bool) (p : GProj) (c0 : Conn) (hf : f
     · obtain ⟨w, hw⟩ := hok.wset rfl c hc
       simp [cRowW, gRowW, wOf, hw]
   unfold encodeGProj
-  simp only [hf, hw, gAttrs, encRowsG, wFlag]
+  simp only [hf, hw, gAttrs, encRowsG, wFlag, uniformG_of cont c0 _ huni, Bool.not_true, Bool.and_false,
+    Bool.false_eq_true, if_false]
 
 def decRowsG (cfg : Cfg) (p : GProj) : List RowD :=
   p.all.map (fun c => rowOf cfg.r c.id c (cfg.r (wOf c)) 0)
@@ -597,7 +605,7 @@ theorem buildGProj_sem (cfg : Cfg) (h0 : cfg.r 0 = 0) (cont : Bool) (id pre post
     (prePop postPop : Pop) (hp : prePop.id = pre) (hq : postPop.id = post) (all : List Conn)
     (hc : ∀ c ∈ all, GConnOK cfg.r pre post c) (hs : ∀ c ∈ all, c.syn = syn ∧ c.preComp = preComp)
     (hnw : prePop.insts = [] → postPop.insts = [] → ∀ c ∈ all, cfg.r (wOf c) = 1) :
-    ∃ p', buildGProj cont id pre post syn preComp prePop postPop
+    ∃ p', buildGProj cfg cont id pre post syn preComp prePop postPop
             (all.map (fun c => rowOf cfg.r c.id c (cfg.r (wOf c)) 0)) = .ok p' ∧
           semGProj p' = ⟨id, pre, post, "", canonConns (all.map (fun c => rConn cfg.r (semConn true pre post c)))⟩ := by
   have hS : ∀ c ∈ all, (rConn cfg.r (semConn true pre post c)).delay = 0 := by
@@ -677,7 +685,7 @@ theorem postId_eq (top : List Comp) (s : String) :
 
 theorem decodeProjBody_elec (cfg : Cfg) (top : List Comp) (pops : List Pop) (h : PHdr) (a : Arr) (rows : List RowD)
     (it : Item) (ht : h.typ = "electricalProjection") (hm : mapIdxE (decodeConnRow cfg a.cols) 0 a.rows = .ok rows)
-    (hc : gItem false h h.syn "" pops rows = .ok it) :
+    (hc : gItem cfg false h h.syn "" pops rows = .ok it) :
     decodeProjBody cfg top pops h [a] =
       .ok (it, [getById top h.syn, if h.preSyn.length > 0 then getById top h.preSyn else none]) := by
   simp [decodeProjBody, hm, ht, hc]
@@ -686,7 +694,7 @@ theorem decodeProjBody_cont (cfg : Cfg) (top : List Comp) (pops : List Pop) (h :
     (it : Item) (cp : Comp) (ht : h.typ = "continuousProjection")
     (hm : mapIdxE (decodeConnRow cfg a.cols) 0 a.rows = .ok rows)
     (hp : (if h.preSyn.length > 0 then getById top h.preSyn else none) = some cp)
-    (hc : gItem true h h.syn cp.id pops rows = .ok it) :
+    (hc : gItem cfg true h h.syn cp.id pops rows = .ok it) :
     decodeProjBody cfg top pops h [a] = .ok (it, [getById top h.syn, some cp]) := by
   cases hg : getById top h.syn with
   | none =>
@@ -720,7 +728,7 @@ theorem gproj_roundtrip (cfg : Cfg) (h1 : cfg.r 1 = 1) (h0 : cfg.r 0 = 0) (hu : 
     simp only [decRowsG, List.isEmpty_eq_false_iff, ne_eq, List.map_eq_nil_iff]
     exact this
   have hsem : semGProj p = ⟨p.id, p.pre, p.post, "", p.all.map (semConn true p.pre p.post)⟩ := rfl
-  rw [encodeGProj_eq cfg cont p c0 hf hok]
+  rw [encodeGProj_eq cfg cont p c0 hf hok huni]
   cases cont
   · -- electrical
     obtain ⟨p', hb, hs⟩ := buildGProj_sem cfg h0 false p.id p.pre p.post c0.syn "" prePop postPop hpid hqid p.all
@@ -992,11 +1000,11 @@ def IdsAreIndex : Nat → List Inst → Prop
   | _, [] => True
   | n, i :: is => i.id = (n : Int) ∧ IdsAreIndex (n + 1) is
 
-structure PopOK (p : Pop) : Prop where
+structure PopOK (cfg : Cfg) (p : Pop) : Prop where
   sized : p.insts = [] → ∃ n, p.size = some n
   ids : IdsAreIndex 0 p.insts
   tagsNodup : (p.props.map (·.1)).Nodup
-  tagsCut : ∀ kv ∈ p.props, cutTag kv.1 = kv.1
+  tagsCut : ∀ kv ∈ p.props, cutTag cfg kv.1 = kv.1
 
 def baseAttrs (p : Pop) : Attrs := [("id", .str p.id), ("component", .str p.comp)]
 
@@ -1024,19 +1032,19 @@ theorem filterMap_id_of_forall {α : Type} (f : α → Option α) : ∀ (l : Lis
     simp only
     rw [filterMap_id_of_forall f as (fun b hb => h b (by simp [hb]))]
 
-theorem propsOf_eq (cfg : Cfg) (p : Pop) (tail : Attrs) (hcut : ∀ kv ∈ p.props, cutTag kv.1 = kv.1)
+theorem propsOf_eq (cfg : Cfg) (p : Pop) (tail : Attrs) (hcut : ∀ kv ∈ p.props, cutTag cfg kv.1 = kv.1)
     (htail : ∀ kv ∈ tail, propPrefix.toList.isPrefixOf kv.1.toList = false) :
     propsOf cfg (baseAttrs p ++ propAttrs p.props ++ tail) = p.props := by
   unfold propsOf
   rw [List.filterMap_append, List.filterMap_append]
   have h1 : (baseAttrs p).filterMap (fun kv =>
       if propPrefix.toList.isPrefixOf kv.1.toList then
-        some (cutTag (String.ofList (kv.1.toList.drop propPrefix.length)), (strAttr cfg [kv] kv.1).getD "None")
+        some (cutTag cfg (String.ofList (kv.1.toList.drop propPrefix.length)), (strAttr cfg [kv] kv.1).getD "None")
       else none) = [] := by
     simp [baseAttrs, propPrefix]
   have h3 : tail.filterMap (fun kv =>
       if propPrefix.toList.isPrefixOf kv.1.toList then
-        some (cutTag (String.ofList (kv.1.toList.drop propPrefix.length)), (strAttr cfg [kv] kv.1).getD "None")
+        some (cutTag cfg (String.ofList (kv.1.toList.drop propPrefix.length)), (strAttr cfg [kv] kv.1).getD "None")
       else none) = [] := by
     rw [List.filterMap_eq_nil_iff]
     intro kv hkv
@@ -1045,7 +1053,7 @@ theorem propsOf_eq (cfg : Cfg) (p : Pop) (tail : Attrs) (hcut : ∀ kv ∈ p.pro
   simp only [List.nil_append, List.append_nil, propAttrs, List.filterMap_map]
   have : ∀ kv ∈ p.props, ((fun kv : String × AttrV =>
       if propPrefix.toList.isPrefixOf kv.1.toList then
-        some (cutTag (String.ofList (kv.1.toList.drop propPrefix.length)), (strAttr cfg [kv] kv.1).getD "None")
+        some (cutTag cfg (String.ofList (kv.1.toList.drop propPrefix.length)), (strAttr cfg [kv] kv.1).getD "None")
       else none) ∘ (fun kv : String × String => ("property:" ++ kv.1, AttrV.str kv.2))) kv = some kv := by
     intro kv hkv
     simp only [Function.comp, prop_prefix, if_true, prop_drop, hcut kv hkv]
@@ -1054,18 +1062,26 @@ theorem propsOf_eq (cfg : Cfg) (p : Pop) (tail : Attrs) (hcut : ∀ kv ∈ p.pro
 
 
 theorem decode_locRow (cfg : Cfg) (k : Nat) (i : Inst) :
-    decodeLocRow none 0 1 2 k [cfg.r i.x, cfg.r i.y, cfg.r i.z] = .ok ⟨(k : Int), cfg.r i.x, cfg.r i.y, cfg.r i.z⟩ := by
-  simp [decodeLocRow, cell, bind, Except.bind, pure, Except.pure]
+    decodeLocRow none (some 0) (some 1) (some 2) k [cfg.r i.x, cfg.r i.y, cfg.r i.z] =
+      .ok ⟨(k : Int), cfg.r i.x, cfg.r i.y, cfg.r i.z⟩ := by
+  simp [decodeLocRow, cell, cellReq, bind, Except.bind, pure, Except.pure]
 
 def locRows (cfg : Cfg) (p : Pop) : List (List Rat) := p.insts.map (fun i => [cfg.r i.x, cfg.r i.y, cfg.r i.z])
 
 def decInsts (cfg : Cfg) (p : Pop) : List Inst := zipIdx (fun k i => (⟨(k : Int), cfg.r i.x, cfg.r i.y, cfg.r i.z⟩ : Inst)) 0 p.insts
 
-theorem decodeLocs_enc (cfg : Cfg) (p : Pop) :
-    decodeLocs ⟨p.id, locCols, locRows cfg p⟩ = .ok (decInsts cfg p) := by
+theorem decodeLocs_enc (cfg : Cfg) (p : Pop) (hne : p.insts ≠ []) :
+    decodeLocs cfg ⟨p.id, locCols, locRows cfg p⟩ = .ok (decInsts cfg p) := by
   obtain ⟨e0, e1, e2, e3⟩ := colIdx_loc
-  unfold decodeLocs locIdx
-  simp only [e0, e1, e2, e3, bind, Except.bind]
+  have hidx : locIdxs cfg ⟨p.id, locCols, locRows cfg p⟩ = .ok (none, some 0, some 1, some 2) := by
+    unfold locIdxs
+    simp only [e0, e1, e2, e3]
+    cases hi : p.insts with
+    | nil => exact absurd hi hne
+    | cons i is => simp [locRows, hi]
+  unfold decodeLocs
+  rw [hidx]
+  show mapIdxE (decodeLocRow none (some 0) (some 1) (some 2)) 0 (locRows cfg p) = .ok (decInsts cfg p)
   unfold locRows decInsts
   apply mapIdxE_map_ok
   intro k i _
@@ -1084,7 +1100,7 @@ def popAttrs (p : Pop) : Attrs :=
     (if p.insts.isEmpty then [("size", match p.size with | some n => AttrV.int n | none => AttrV.none)]
      else [("size", AttrV.int p.insts.length), ("type", AttrV.str "populationList")])
 
-theorem encodePop_eq (cfg : Cfg) (p : Pop) (hok : PopOK p) :
+theorem encodePop_eq (cfg : Cfg) (p : Pop) (hok : PopOK cfg p) :
     encodePop cfg p = .ok ⟨popLeafName p.id, popAttrs p,
       if p.insts.isEmpty then [] else [⟨p.id, locCols, locRows cfg p⟩]⟩ := by
   have hf := fold_setAttr (baseAttrs p) (base_noprop p) p.props [] (by simpa using hok.tagsNodup)
@@ -1111,7 +1127,7 @@ theorem encodePop_eq (cfg : Cfg) (p : Pop) (hok : PopOK p) :
     rfl
 
 
-theorem pop_roundtrip (cfg : Cfg) (top : List Comp) (p : Pop) (hok : PopOK p) :
+theorem pop_roundtrip (cfg : Cfg) (top : List Comp) (p : Pop) (hok : PopOK cfg p) :
     ∃ leaf p', encodePop cfg p = .ok leaf ∧ leaf.name = popLeafName p.id ∧
       decodePop cfg top leaf = .ok (p', getById top p.comp) ∧
       p'.id = p.id ∧ p'.comp = p.comp ∧ (p'.insts = [] ↔ p.insts = []) ∧
@@ -1143,7 +1159,7 @@ theorem pop_roundtrip (cfg : Cfg) (top : List Comp) (p : Pop) (hok : PopOK p) :
     refine ⟨_, ⟨p.id, p.comp, some (p.insts.length : Int), some "populationList", decInsts cfg p, p.props⟩,
       rfl, rfl, ?_, rfl, rfl, ?_, ?_⟩
     · simp only [decodePop, hid, hcomp, hprops, Bool.false_eq_true, if_false, popSize, popInsts, List.find?,
-        decide_true, decodeLocs_enc, hd]
+        decide_true, decodeLocs_enc cfg p hne, hd]
       simp [locRows]
     · constructor
       · intro h; exact absurd h (by simpa using hd)
@@ -1287,7 +1303,7 @@ theorem findPop_rel : ∀ (ps qs : List Pop) (id : String) (p : Pop), PopsRel ps
       exact hq
 
 theorem pops_rt (cfg : Cfg) (top : List Comp) :
-    ∀ ps : List Pop, (∀ p ∈ ps, PopOK p) →
+    ∀ ps : List Pop, (∀ p ∈ ps, PopOK cfg p) →
       ∃ leaves ys, ps.map (encodePop cfg) = leaves.map Except.ok ∧
         leaves.map (·.name) = ps.map (fun p => popLeafName p.id) ∧
         mapE (decodePop cfg top) leaves = .ok ys ∧
@@ -1322,13 +1338,13 @@ structure GSupp (cfg : Cfg) (cont : Bool) (top : List Comp) (n : Net) (p : GProj
 structure NetOK (cfg : Cfg) (top : List Comp) (n : Net) : Prop where
   noSyn : n.nSynConn = 0
   noExp : n.nExplicit = 0
-  pops : ∀ p ∈ n.pops, PopOK p
+  pops : ∀ p ∈ n.pops, PopOK cfg p
   names : (leafNames n).Nodup
-  kPop : ∀ p ∈ n.pops, kindOf (popLeafName p.id) = .pop
-  kProj : ∀ p ∈ n.projs, kindOf (projLeafName p.id) = .proj
-  kEProj : ∀ p ∈ n.eprojs, kindOf (projLeafName p.id) = .proj
-  kCProj : ∀ p ∈ n.cprojs, kindOf (projLeafName p.id) = .proj
-  kIL : ∀ l ∈ n.ilists, kindOf (ilLeafName l.id) = .il
+  kPop : ∀ p ∈ n.pops, kindOf cfg (popLeafName p.id) = .pop
+  kProj : ∀ p ∈ n.projs, kindOf cfg (projLeafName p.id) = .proj
+  kEProj : ∀ p ∈ n.eprojs, kindOf cfg (projLeafName p.id) = .proj
+  kCProj : ∀ p ∈ n.cprojs, kindOf cfg (projLeafName p.id) = .proj
+  kIL : ∀ l ∈ n.ilists, kindOf cfg (ilLeafName l.id) = .il
   projs : ∀ p ∈ n.projs, ProjOK cfg.r p ∧ ∃ a b, popOf n p.pre = some a ∧ popOf n p.post = some b
   eprojs : ∀ p ∈ n.eprojs, GSupp cfg false top n p
   cprojs : ∀ p ∈ n.cprojs, GSupp cfg true top n p
@@ -1360,7 +1376,7 @@ theorem seg_projs (cfg : Cfg) (hc : CfgOK cfg) (top : List Comp) (n : Net) (hok 
   simp only [decodeOther, h2, hok.kProj p hp, h3]
 
 theorem seg_gprojs (cfg : Cfg) (hc : CfgOK cfg) (cont : Bool) (top : List Comp) (n : Net) (pops' : List Pop)
-    (hrel : PopsRel n.pops pops') (ps : List GProj) (hk : ∀ p ∈ ps, kindOf (projLeafName p.id) = .proj)
+    (hrel : PopsRel n.pops pops') (ps : List GProj) (hk : ∀ p ∈ ps, kindOf cfg (projLeafName p.id) = .proj)
     (hs : ∀ p ∈ ps, GSupp cfg cont top n p) :
     ∀ p ∈ ps, ∃ leaf it objs, encodeGProj cfg cont p = .ok leaf ∧ leaf.name = projLeafName p.id ∧
       decodeOther cfg top pops' leaf = .ok (it, objs) ∧ (∀ c, some c ∈ objs → c ∈ top) ∧
@@ -1391,8 +1407,8 @@ theorem seg_ils (cfg : Cfg) (hc : CfgOK cfg) (top : List Comp) (n : Net) (hok : 
 
 
 theorem kinds_of_names {X : Type} (xs : List X) (nameOf : X → String) (leaves : List Leaf)
-    (h : leaves.map (·.name) = xs.map nameOf) (K : Kind) (hk : ∀ x ∈ xs, kindOf (nameOf x) = K) :
-    ∀ l ∈ leaves, kindOf l.name = K := by
+    (h : leaves.map (·.name) = xs.map nameOf) (K : Kind) (hk : ∀ x ∈ xs, kindOf cfg (nameOf x) = K) :
+    ∀ l ∈ leaves, kindOf cfg l.name = K := by
   intro l hl
   have : l.name ∈ leaves.map (·.name) := List.mem_map.mpr ⟨l, hl, rfl⟩
   rw [h] at this
@@ -1491,8 +1507,8 @@ theorem net_roundtrip (cfg : Cfg) (hc : CfgOK cfg) (top : List Comp) (n : Net) (
       rw [otherBodies_fst] at hb1
       rw [List.mem_reverse, popBodies_fst] at hmem
       exact hdisj _ hmem _ hb1 rfl
-  have hkp : ∀ l ∈ lpop, kindOf l.name = .pop := kinds_of_names n.pops _ lpop p2 .pop hok.kPop
-  have hko : ∀ l ∈ l1 ++ l2 ++ l3 ++ l4, kindOf l.name = .proj ∨ kindOf l.name = .il := by
+  have hkp : ∀ l ∈ lpop, kindOf cfg l.name = .pop := kinds_of_names n.pops _ lpop p2 .pop hok.kPop
+  have hko : ∀ l ∈ l1 ++ l2 ++ l3 ++ l4, kindOf cfg l.name = .proj ∨ kindOf cfg l.name = .il := by
     intro l hl
     simp only [List.mem_append] at hl
     rcases hl with ((hl | hl) | hl) | hl
@@ -1500,17 +1516,17 @@ theorem net_roundtrip (cfg : Cfg) (hc : CfgOK cfg) (top : List Comp) (n : Net) (
     · exact Or.inl (kinds_of_names n.eprojs _ l2 b2 .proj hok.kEProj l hl)
     · exact Or.inl (kinds_of_names n.cprojs _ l3 c2 .proj hok.kCProj l hl)
     · exact Or.inr (kinds_of_names n.ilists _ l4 d2 .il hok.kIL l hl)
-  have hamb : (lpop ++ (l1 ++ l2 ++ l3 ++ l4)).any (fun l => kindOf l.name = .ambiguous) = false := by
+  have hamb : (lpop ++ (l1 ++ l2 ++ l3 ++ l4)).any (fun l => kindOf cfg l.name = .ambiguous) = false := by
     rw [List.any_eq_false]
     intro l hl
     rcases List.mem_append.mp hl with hl | hl
     · simp [hkp l hl]
     · rcases hko l hl with h | h <;> simp [h]
-  have hf1 : (lpop ++ (l1 ++ l2 ++ l3 ++ l4)).filter (fun l => kindOf l.name = .pop) = lpop := by
+  have hf1 : (lpop ++ (l1 ++ l2 ++ l3 ++ l4)).filter (fun l => kindOf cfg l.name = .pop) = lpop := by
     rw [List.filter_append, filter_all _ _ (fun l hl => by simp [hkp l hl]),
       filter_none _ _ (fun l hl => by rcases hko l hl with h | h <;> simp [h])]
     simp
-  have hf2 : (lpop ++ (l1 ++ l2 ++ l3 ++ l4)).filter (fun l => kindOf l.name ≠ .pop) = l1 ++ l2 ++ l3 ++ l4 := by
+  have hf2 : (lpop ++ (l1 ++ l2 ++ l3 ++ l4)).filter (fun l => kindOf cfg l.name ≠ .pop) = l1 ++ l2 ++ l3 ++ l4 := by
     rw [List.filter_append, filter_none _ _ (fun l hl => by simp [hkp l hl]),
       filter_all _ _ (fun l hl => by rcases hko l hl with h | h <;> simp [h])]
     simp
@@ -1808,5 +1824,57 @@ theorem forall_two {α : Type} {P : α → Prop} {a b : α} (ha : P a) (hb : P b
   intro x hx; simp at hx; rcases hx with rfl | rfl <;> assumption
 
 theorem connExact_id (c : Conn) : ConnExact id c := ⟨rfl, rfl, rfl, rfl⟩
+
+end NmlVerif.Hdf5
+
+namespace NmlVerif.Hdf5
+set_option linter.unusedSimpArgs false
+
+/-! ## repaired name tests (`startswith`) and property tags: the `kindOf` / `cutTag` side conditions hold for EVERY id -/
+
+theorem cutTag_whole (cfg : Cfg) (h : cfg.tagWhole = true) (t : String) : cutTag cfg t = t := by
+  simp [cutTag, h]
+
+theorem kindOf_pop_prefix (cfg : Cfg) (h : cfg.prefixNames = true) (id : String) :
+    kindOf cfg (popLeafName id) = .pop := by
+  simp [kindOf, hasP, h, popLeafName, String.toList_append, List.isPrefixOf]
+
+theorem kindOf_proj_prefix (cfg : Cfg) (h : cfg.prefixNames = true) (id : String) :
+    kindOf cfg (projLeafName id) = .proj := by
+  simp [kindOf, hasP, h, projLeafName, String.toList_append, List.isPrefixOf]
+
+theorem kindOf_il_prefix (cfg : Cfg) (h : cfg.prefixNames = true) (id : String) :
+    kindOf cfg (ilLeafName id) = .il := by
+  simp [kindOf, hasP, h, ilLeafName, String.toList_append, List.isPrefixOf]
+
+theorem prefix_head2 (a b c d : Char) (as bs l : List Char) (h1 : (a :: b :: as).isPrefixOf l = true)
+    (h2 : (c :: d :: bs).isPrefixOf l = true) : a = c ∧ b = d := by
+  match l with
+  | [] => simp [List.isPrefixOf] at h1
+  | [x] => simp [List.isPrefixOf] at h1
+  | x :: y :: r =>
+    simp [List.isPrefixOf] at h1 h2
+    exact ⟨h1.1.trans h2.1.symm, h1.2.1.trans h2.2.1.symm⟩
+
+/-- with `startswith` no group name triggers two handlers -/
+theorem kindOf_never_ambiguous (cfg : Cfg) (h : cfg.prefixNames = true) (name : String) :
+    kindOf cfg name ≠ .ambiguous := by
+  unfold kindOf hasP
+  simp only [h, if_true]
+  have e1 : "population_".toList = 'p' :: 'o' :: "pulation_".toList := by decide
+  have e2 : "projection_".toList = 'p' :: 'r' :: "ojection_".toList := by decide
+  have e3 : "inputList_".toList = 'i' :: 'n' :: "putList_".toList := by decide
+  have e4 : "input_list_".toList = 'i' :: 'n' :: "put_list_".toList := by decide
+  cases h1 : "population_".toList.isPrefixOf name.toList <;>
+  cases h2 : "projection_".toList.isPrefixOf name.toList <;>
+  cases h3 : "inputList_".toList.isPrefixOf name.toList <;>
+  cases h4 : "input_list_".toList.isPrefixOf name.toList <;> simp
+  all_goals (rw [e1] at h1; rw [e2] at h2; rw [e3] at h3; rw [e4] at h4)
+  all_goals first
+    | exact absurd (prefix_head2 _ _ _ _ _ _ _ h1 h2).2 (by decide)
+    | exact absurd (prefix_head2 _ _ _ _ _ _ _ h1 h3).1 (by decide)
+    | exact absurd (prefix_head2 _ _ _ _ _ _ _ h1 h4).1 (by decide)
+    | exact absurd (prefix_head2 _ _ _ _ _ _ _ h2 h3).1 (by decide)
+    | exact absurd (prefix_head2 _ _ _ _ _ _ _ h2 h4).1 (by decide)
 
 end NmlVerif.Hdf5
